@@ -670,6 +670,7 @@ func c04Main(t *testing.T, rep *kit.Report) {
 				left := float64(dl) - rep.RealSeconds()
 				until = rep.RealSeconds() + left/float64(len(scs)-i)
 			}
+			exps[i].Restart()
 			c04Explore(rep, sc, dir, exps[i], b, until)
 			if rep.NViolations > 0 {
 				rep.Cut("stopped at the first violation of this worker (the instance may be poisoned)")
@@ -677,13 +678,44 @@ func c04Main(t *testing.T, rep *kit.Report) {
 			}
 		}
 	}
+	// Scenarios whose time slice ended before their share of the last bound did are continued, in order, with the time the
+	// others did not use (the depth-first search is resumed where it stopped, nothing is executed twice).
+	for round := 0; round < 8 && !rep.Expired(); round++ {
+		var todo []int
+		for i := range scs {
+			if exps[i].Resumable() {
+				todo = append(todo, i)
+			}
+		}
+		if len(todo) == 0 {
+			break
+		}
+		for k, i := range todo {
+			var until float64
+			if dl := rep.DeadlineSeconds(); dl > 0 {
+				left := float64(dl) - rep.RealSeconds()
+				until = rep.RealSeconds() + left/float64(len(todo)-k)
+			}
+			c04Explore(rep, scs[i], dir, exps[i], bound, until)
+			if rep.NViolations > 0 {
+				rep.Cut("stopped at the first violation of this worker (the instance may be poisoned)")
+				return
+			}
+		}
+	}
+	for i := range scs {
+		if exps[i].Resumable() {
+			rep.Cut(fmt.Sprintf("%s: exploration at bound %d cut", scs[i].Name, bound))
+		}
+	}
 }
 
 func c04Explore(rep *kit.Report, sc c04Scenario, dir string, e *sched.Explorer, b int, until float64) {
 	{
 		e.Stop = func() bool { return rep.Expired() || (until > 0 && rep.RealSeconds() > until) }
+		resumed := e.Resumable()
 		e.Bound, e.FilterShared, e.Executions, e.MaxExec, e.Capped = b, b >= 2, 0, 0, false
-		first := true
+		first := !resumed
 		nth := 0
 		stop := false
 		e.Explore(func(x *sched.Exec) {
@@ -730,7 +762,10 @@ func c04Explore(rep *kit.Report, sc c04Scenario, dir string, e *sched.Explorer, 
 			e.Divergences = 0
 		}
 		if e.Capped || stop {
-			rep.Cut(fmt.Sprintf("%s: exploration at bound %d cut", sc.Name, b))
+			if stop || !e.Resumable() {
+				rep.Cut(fmt.Sprintf("%s: exploration at bound %d cut", sc.Name, b))
+			}
+			// otherwise the caller may resume it; c04Main records the cut if it is still unfinished at the end
 			return
 		}
 	}
